@@ -7,7 +7,8 @@ package main
 //   W:<hex>[:<poison hex>]  Write(p) with len(p)=len(hex); cap(p)=len(p) exactly unless a poison tail is given, in which case
 //                           the backing array continues with the poison bytes (spare capacity that must never be read);
 //                           after the call the caller's buffer is overwritten (the hasher must not keep a reference)
-//   S:<hex>                 Sum(b): result rendered immediately, then the returned slice is overwritten by the caller
+//   S:<hex>[:d<dirt hex>]   Sum(b): result rendered immediately, then the returned slice is overwritten by the caller; with `d…` the
+//                           spare capacity of b holds these garbage bytes (dirty destination: append may or may not land in it)
 //   R                       Reset
 //   T                       State(): rendered immediately, then the returned slice is overwritten by the caller
 //   U:<hex>                 SetState(s), then the caller overwrites s
@@ -138,8 +139,13 @@ func histOp(h *stdhash.Hash, fresh func() stdhash.Hash, tok string) (res string)
 			return "err"
 		}
 		return "ok:" + fmt.Sprintf("%x", n)
-	case f[0] == "S" && len(f) == 2:
-		b := c14MkSlice(parseBytes(f[1]), nil)
+	case f[0] == "S" && (len(f) == 2 || len(f) == 3 && strings.HasPrefix(f[2], "d")):
+		// dirty destination: the spare capacity of b holds garbage (`d<hex>`)
+		var dirt []byte
+		if len(f) == 3 {
+			dirt = parseBytes(f[2][1:])
+		}
+		b := c14MkSlice(parseBytes(f[1]), dirt)
 		out := (*h).Sum(b)
 		r := hexBytes(out)
 		if mut {
@@ -211,8 +217,10 @@ func execC14(a []string) string {
 		return execP2(a[0], a[1:])
 	case "vx":
 		return c14ExecVx(a[1:])
-	case "sis", "sism":
+	case "sis", "sism", "sisd":
 		return execSis(a[0], a[1:])
+	case "siscover":
+		return "missing-adapter"
 	}
 	return "bad-op"
 }
@@ -388,6 +396,10 @@ func (al *histAlphabet) otherTokens(r *rng, small bool) []string {
 		"S:-:m",
 		"T:m",
 		"U:" + hexBytes(st) + ":m",
+		// dirty destinations: garbage in the spare capacity, enough for the digest / one byte short / far more
+		"S:-:d" + hexBytes(c14BytesOf(0xee, al.size)),
+		"S:" + hexBytes(r.bytes(1+r.intn(3))) + ":d" + hexBytes(r.bytes(al.size-1)) + ":m",
+		"S:" + hexBytes(st) + ":d" + hexBytes(r.bytes(3*al.size)),
 	}
 }
 
@@ -454,6 +466,9 @@ func randomHistories(g *gen, al *histAlphabet, n, maxLen int, badRate int) [][]s
 				h[j] = []string{o[0], o[0], o[3], o[4], o[5], o[6], w[6]}[g.rng.intn(7)]
 			default:
 				h[j] = o[g.rng.intn(7)]
+			}
+			if f := strings.Split(h[j], ":"); f[0] == "S" && len(f) == 2 && g.rng.intn(3) == 0 {
+				h[j] += ":d" + hexBytes(g.rng.bytes(1+g.rng.intn(2*al.size)))
 			}
 		}
 		out = append(out, h)
